@@ -960,4 +960,104 @@ theorem join_overlap_at_start_witness :
     monitorB (jexec (JSys.start [[f10k0], [f10k1]]) [.proc 1, .proc 0]).out
       (joinContents [[f10k0], [f10k1]]) = false := by decide
 
+/-! ## a join created over POPULATED collections: the invariant holds from `JSys.start` too, so the in-flight
+    theorem covers a join whose collections already hold objects when it registers (no key in two of them:
+    `jrunOK` then rejects the run, that half is finding F10, `join_overlap_at_start_witness`) -/
+
+def jaddsOf (c : List JObj) : List JEv := c.map (fun o => (⟨none, some o⟩ : JEv))
+
+theorem chain_of_noPend {q : List JEv} {k : Key} (h : noPend q k) (live : Option JObj) : chain q k live := by
+  induction q with
+  | nil => trivial
+  | cons e q ih =>
+    refine ⟨fun he => absurd he (h e (List.mem_cons_self ..)), ih (fun x hx => h x (List.mem_cons_of_mem _ hx))⟩
+
+theorem jaddsOf_key (o : JObj) : (⟨none, some o⟩ : JEv).key = o.key := rfl
+
+theorem noPend_jaddsOf {c : List JObj} {k : Key} (h : ∀ o ∈ c, o.key ≠ k) : noPend (jaddsOf c) k := by
+  intro e he
+  simp only [jaddsOf, List.mem_map] at he
+  obtain ⟨o, ho, rfl⟩ := he
+  exact h o ho
+
+/-- what the join has seen of a collection whose objects are all still queued as Adds: nothing -/
+theorem dstart_jaddsOf (c : List JObj) (k : Key) : dstart (jaddsOf c) k (jget c k) = none := by
+  induction c with
+  | nil => rfl
+  | cons o l ih =>
+    simp only [jaddsOf, List.map_cons, dstart]
+    by_cases hk : o.key = k
+    · rw [if_pos (by rw [jaddsOf_key]; exact hk)]
+    · rw [if_neg (by rw [jaddsOf_key]; exact hk)]
+      have : jget (o :: l) k = jget l k := by
+        simp only [jget]; rw [if_neg (fun h => hk h.symm)]
+      rw [this]; exact ih
+
+theorem chain_jaddsOf (c : List JObj) (hnd : (c.map (·.key)).Nodup) (k : Key) : chain (jaddsOf c) k (jget c k) := by
+  induction c with
+  | nil => trivial
+  | cons o l ih =>
+    simp only [List.map_cons, List.nodup_cons] at hnd
+    simp only [jaddsOf, List.map_cons, chain]
+    by_cases hk : o.key = k
+    · have hno : noPend (jaddsOf l) k := noPend_jaddsOf (fun x hx hxk => hnd.1 (by
+        rw [hk, ← hxk]; exact List.mem_map_of_mem (f := (·.key)) hx))
+      have hj : jget (o :: l) k = some o := by simp only [jget]; rw [if_pos hk.symm]
+      rw [hj]
+      exact ⟨fun _ => (dstart_noPend hno _).symm, chain_of_noPend hno _⟩
+    · have hj : jget (o :: l) k = jget l k := by
+        simp only [jget]; rw [if_neg (fun h => hk h.symm)]
+      rw [hj]
+      exact ⟨fun he => absurd (by rw [jaddsOf_key] at he; exact he) hk, ih hnd.2⟩
+
+theorem jg_start (cols : List (List JObj)) (hnd : ∀ c ∈ cols, (c.map (·.key)).Nodup) : JG (JSys.start cols) := by
+  refine ⟨by simp [JSys.start], ?_, ?_, wellFormedFrom_nil _, ?_⟩
+  · show chainAll (cols.map jaddsOf) cols
+    induction cols with
+    | nil => trivial
+    | cons c cs ih =>
+      simp only [List.map_cons, chainAll]
+      exact ⟨fun k => chain_jaddsOf c (hnd c (List.mem_cons_self ..)) k,
+        ih (fun c' hc' => hnd c' (List.mem_cons_of_mem _ hc'))⟩
+  · intro q hq e he
+    simp only [JSys.start, List.mem_map] at hq
+    obtain ⟨c, _, rfl⟩ := hq
+    simp only [List.mem_map] at he
+    obtain ⟨o, _, rfl⟩ := he
+    exact ⟨fun o' h => by simp at h, fun h => by simp at h⟩
+  · intro k
+    show lookup (replay []) k = specOpt (dvec (cols.map jaddsOf) cols k)
+    simp only [replay, replayFrom, List.foldl_nil, lookup]
+    clear hnd
+    induction cols with
+    | nil => rfl
+    | cons c cs ih =>
+      simp only [List.map_cons, dvec, dstart_jaddsOf, specOpt]
+      exact ih
+
+/-- **join_populated_correct**: the join is created over collections that already hold objects (each a map:
+    no key twice inside one collection); as long as an event is never handled while another collection has
+    an unhandled event for the same key - in particular no key is in two collections at the start - the
+    stream is well formed at every moment and replays to the first-collection-wins contents at quiescence. -/
+theorem join_populated_correct (cols : List (List JObj)) (hnd : ∀ c ∈ cols, (c.map (·.key)).Nodup)
+    (run : List JAct) (hok : jrunOK (JSys.start cols) run = true) :
+    WellFormed (jexec (JSys.start cols) run).out ∧
+    ((jexec (JSys.start cols) run).quiescent = true →
+      monitorB (jexec (JSys.start cols) run).out (joinContents (jexec (JSys.start cols) run).cols) = true) := by
+  have h := jg_exec (jg_start cols hnd) run hok
+  refine ⟨h.wf, fun hq => ?_⟩
+  rw [monitorB_iff]
+  refine ⟨h.wf, fun k => ?_⟩
+  rw [h.rep k, dvec_quiescent _ _ _ h.len hq, ← joinGetSpec_liveV]
+  exact (joinGet_first_wins _ k).symm
+
+/-- non-vacuity: two populated disjoint collections, the initial Adds handled in either order with a change of
+    the second collection in flight: accepted, and the stream replays to the contents -/
+theorem join_populated_example :
+    let cols : List (List JObj) := [[f10k0], [{ key := "n/other", ns := "n", tok := "c1" }]]
+    let run : List JAct := [.env 1 (.set { key := "n/other", ns := "n", tok := "c1-changed" }), .proc 1, .proc 0, .proc 1]
+    jrunOK (JSys.start cols) run = true ∧ (jexec (JSys.start cols) run).quiescent = true ∧
+    monitorB (jexec (JSys.start cols) run).out (joinContents (jexec (JSys.start cols) run).cols) = true := by
+  decide
+
 end IstioModel.C16
